@@ -89,9 +89,9 @@ func spanDefSafe(name string) (d trace.C13Span) {
 
 // clocks (logical merge clock, tsTable.setMergeNow)
 var clocks = map[string]int64{
-	"immature": t0,                                   // frontier 9h: nothing is mature
-	"partial":  t0 + hour + int64(time.Second),       // frontier 10h+1s: A mature, B immature
-	"mature":   t0 + 5*hour,                          // everything mature
+	"immature": t0,                                    // frontier 9h: nothing is mature
+	"partial":  t0 + hour + int64(time.Second),        // frontier 10h+1s: A mature, B immature
+	"mature":   t0 + 5*hour,                           // everything mature
 	"boundary": t0 + hour + 3*int64(time.Millisecond), // frontier == max timestamp of A3 exactly (inclusive boundary)
 }
 
@@ -99,7 +99,7 @@ var clocks = map[string]int64{
 type Cfg struct {
 	Sampler   string `json:"sampler"` // none keep-all drop-A drop-B drop-all error panic mismatch drop-all/finalize-only drop-all/pipeline-off
 	Clock     string `json:"clock"`
-	Mode      string `json:"mode"` // arrival alphabet: "full" (all orders) or "layout" (fixed out-of-order arrival sequence per trace)
+	Mode      string `json:"mode"`  // arrival alphabet: "full" (all orders) or "layout" (fixed out-of-order arrival sequence per trace)
 	Spans     string `json:"spans"` // universe, e.g. "A1,A2,A3,B1,B2"
 	ForceSlow bool   `json:"force_slow,omitempty"`
 	FullProj  bool   `json:"full_projection,omitempty"` // sampler projects tags+span ids+spans (decoded staging instead of raw staging)
@@ -231,8 +231,12 @@ func (s *sampler) Decide(b *sdk.TraceBatch) (_ sdk.Verdict, _ error) {
 	first := len(s.views)
 	for i := range b.Traces {
 		s.seen[b.Traces[i].TraceID]++
-		s.views = append(s.views, view{Trace: b.Traces[i].TraceID, MinTS: b.Traces[i].MinTS, MaxTS: b.Traces[i].MaxTS, Call: s.calls,
-			SpanIDs: append([]string(nil), b.Traces[i].SpanIDs...)})
+		// deep copies: the batch's strings alias engine buffers that are recycled after the call
+		ids := make([]string, len(b.Traces[i].SpanIDs))
+		for k, id := range b.Traces[i].SpanIDs {
+			ids[k] = strings.Clone(id)
+		}
+		s.views = append(s.views, view{Trace: strings.Clone(b.Traces[i].TraceID), MinTS: b.Traces[i].MinTS, MaxTS: b.Traces[i].MaxTS, Call: s.calls, SpanIDs: ids})
 	}
 	defer func() { // record the verdicts of a call that returns normally
 		for i := range keep {
@@ -338,7 +342,7 @@ type partObs struct {
 type obs struct {
 	Visible  map[string][]string `json:"visible"` // trace -> span ids as returned by the query path, sorted
 	Corrupt  []string            `json:"corrupt,omitempty"`
-	Sidx     map[string][]int64  `json:"sidx"` // trace -> keys (sorted, with multiplicity)
+	Sidx     map[string][]int64  `json:"sidx"`    // trace -> keys (sorted, with multiplicity)
 	Ordered  map[string][]string `json:"ordered"` // trace -> span ids returned by the ordered (sidx-driven) query, sorted
 	OrdSeq   []string            `json:"ord_seq"` // trace ids in the order the ordered query produced them
 	SidxBad  []string            `json:"sidx_bad,omitempty"`
@@ -1378,6 +1382,8 @@ func units(thorough bool) []unit {
 			us = append(us, unit{Cfg: sp.c, First: b, Depth: sp.d})
 		}
 	}
+	// last: these histories are heavy (18 MiB each) and not subject to the search deadline; they must not starve the search
+	us = append(us, batchEdgeUnits(thorough)...)
 	return us
 }
 
